@@ -140,7 +140,7 @@ class C20(Prop):
             "inside a comma list, application/json, */*, empty} x {with, without} NIP-11 document x {with, without} default "
             "handler x an optional `Connection: Upgrade` x GET/POST/OPTIONS; 10% direct calls of NIP11.ServeHTTP; 20% random "
             "documents (every optional block absent / empty / filled, nil elements, kinds as single numbers and pairs incl. "
-            "From = To, reversed and negative, ints incl. the int64 extremes, strings with HTML characters, quotes, "
+            "From = To, reversed and negative, ints incl. the int64 extremes, strings with HTML characters, quotes, percent signs (100% free, %20, %s%d%v, %%), "
             "non-ASCII, U+2028) through json.Marshal and json.Unmarshal; 10% kind ranges through Marshal/Unmarshal; 5% "
             "Unmarshal of Nip11Kind from hand-written JSON (wrong lengths, wrong element types, fractions, out of range "
             "numbers, strings, null, objects).  A routing case is non-trivial when its destination differs from the one "
